@@ -55,6 +55,7 @@ pub fn spec(prop: &str) -> Spec {
         "C04" => (vec![s("proxy:C04", 1)], 1200, 40000),
         "C05" => (vec![s("proxy:C05", 1)], 1200, 40000),
         "C07" => (vec![s("proxy:C07", 1)], 1500, 60000),
+        "C08" => (vec![s("crash:C08", 1)], 16, 500),
         "C09" => (vec![s("keeper:C09", 1)], 1000, 40000),
         "C10" => (vec![s("keeper:C10", 1)], 1500, 60000),
         "C11" => (vec![s("proxy:C11", 1)], 1000, 30000),
@@ -65,6 +66,16 @@ pub fn spec(prop: &str) -> Spec {
         "C16" => (vec![s("provision:C16", 1)], 1200, 40000),
         _ => (vec![], 0, 0),
     };
+    if prop == "C08" {
+        return Spec {
+            scenarios: scen,
+            quick_runs: q,
+            thorough_runs: t,
+            level: "fault_enumeration",
+            rule: "phase 1: one seeded execution of a key-negotiation scenario (fresh latch / restart with key / rotation / unreadable local key, with host failures at protocol steps and disk errors while storing) in which a snapshot (key directory tree, host state) is taken at EVERY file-system call on the key directory and EVERY network segment on the key keeper's connections; phase 2: one evaluation = one restart of the real agent in a fresh process from one snapshot (disk := snapshot, host := snapshot, no faults), for every snapshot of the execution (snapshots with identical disk+host state are restarted once); distinct_nontrivial = number of distinct (disk tree, host state) crash states restarted from. The crash-point dimension is enumerated completely per execution; the executions themselves are sampled by seed".to_string(),
+            exhaustive: false,
+        };
+    }
     Spec { scenarios: scen, quick_runs: q, thorough_runs: t, level: "exploration", rule: RULE_A.to_string(), exhaustive: false }
 }
 
